@@ -3,6 +3,7 @@ package nodis
 import (
 	"fmt"
 	"log"
+	"math"
 	"os"
 	"runtime"
 	"strconv"
@@ -2040,7 +2041,7 @@ func zAdd(n *Nodis, conn *redis.Conn, cmd redis.Command) {
 				break
 			}
 			score, err := strconv.ParseFloat(cmd.Args[i], 64)
-			if err != nil {
+			if err != nil || math.IsNaN(score) {
 				conn.WriteError("ERR score value is not a valid float")
 				return
 			}
